@@ -429,7 +429,10 @@ pub fn run_random(tr: &mut Trace, run: u64, seed: u64, prof: Profile) -> RunStat
     if !p.dead {
         for e in 0..2 {
             p.log_probe = true;
-            p.probe(tr, e);
+            if !cut {
+                // (after a silent continuation the monitors' picture of the run is that of the moment it was cut: no probe)
+                p.probe(tr, e);
+            }
             let hc = p.ep[e].hc.as_ref().unwrap();
             let s = hc.verif_snapshot();
             tr.line(json!({"ev": "Quiesced", "ep": p.ep[e].name, "pending": p.ep[e].last_pending, "bufsize": p.ep[e].last_bufsize.min(2_000_000_000),
